@@ -110,6 +110,23 @@ pub fn judge(spec: &RunSpec) -> Judged {
         ));
         return j;
     }
+    if spec.render {
+        let ra = a.report_bytes(&spec.world);
+        let rb = b.report_bytes(&without.world);
+        if ra != rb {
+            j.violation = Some((
+                "inert_file_changed_report".into(),
+                format!(
+                    "the report of walking {} differs ({:?} vs {:?} bytes) when the inert files [{}] are deleted",
+                    root,
+                    ra.as_ref().map(|b| b.len()),
+                    rb.as_ref().map(|b| b.len()),
+                    inert.iter().map(|p| describe(&spec.world, p)).collect::<Vec<_>>().join(", ")
+                ),
+            ));
+            return j;
+        }
+    }
     let fa = sorted(a.maps.flat());
     let fb = sorted(b.maps.flat());
     if fa != fb {
@@ -162,7 +179,7 @@ fn gen_spec(rng: &mut Rng, screen: &mut Screen) -> RunSpec {
             opt: gen::gen_pats(rng, Cat::Opt),
             qa: gen::gen_pats(rng, Cat::Qa),
         },
-        render: false,
+        render: rng.chance(1, 2),
     }
 }
 
